@@ -95,8 +95,8 @@ PROPS = {
         level="exploration",
         rule="(a) complete grid of 63 (period P, list latency L, result-consumption delay D) triples: P in {4,10,25} ms x L in P*{0,.5,.9,1,1.1,2,5} x D in P*{0,1,2}, each observed for >= 6 lists and then closed; (b) rapid triples (P 2-30 ms, L 0-5P, D 0-2.5P) with Close() at a generated instant of the list/tick cycle; (c) shutdown (Close or context cancel) while a list with a latency of 2.5-4 s is in flight: the controller must be down within 1 s and the fake must have seen the List call cancelled. L is produced by the fake client sleeping (ctx-aware); D by publishing a watch event just before a list returns whose controller-level filter evaluation sleeps D, so the result waits to be consumed. Both runtime timer modes (GODEBUG asynctimerchan=0 and =1). Oracle from the fake's call record: never two List calls in flight; start(i+1) - return(i) >= 0.9*P; at least the expected number of lists within 10*(1.1P+L+D)+2s (re-checked once with 3x the bound); Close() returns within the wedge bound; no library goroutine left. Non-trivial = L + D > 0.9*P (the timer fires before the previous result is consumed); distinct = (P, L, D, close instant, timer mode).",
         assumptions=["real time: no clock is injectable; only lower bounds on gaps and wedge detection are asserted (load can only lengthen a gap)"],
-        quick=[J("TestC13_Grid", shards=2), J("TestC13_Grid", shards=2, env={"GODEBUG": "asynctimerchan=1"}), J("TestC13_Random", checks=30, shards=8, par=40), J("TestC13_Random", checks=250, shards=16, env={"GODEBUG": "asynctimerchan=1"}, par=40), J("TestC13_CloseDuringSlowList", checks=15, shards=4, par=32), J("TestC13_CloseDuringSlowList", checks=15, shards=2, env={"GODEBUG": "asynctimerchan=1"}, par=32), J("TestC13_RunsOrStops", checks=60, shards=4, par=32)],
-        thorough=[J("TestC13_Grid", shards=2, count=5), J("TestC13_Grid", shards=2, count=5, env={"GODEBUG": "asynctimerchan=1"}), J("TestC13_Random", checks=600, shards=16, par=40, timeout=2400), J("TestC13_Random", checks=1500, shards=24, env={"GODEBUG": "asynctimerchan=1"}, par=40, timeout=2400), J("TestC13_CloseDuringSlowList", checks=300, shards=8, par=32), J("TestC13_CloseDuringSlowList", checks=300, shards=8, env={"GODEBUG": "asynctimerchan=1"}, par=32), J("TestC13_RunsOrStops", checks=1500, shards=8, par=32)],
+        quick=[J("TestC13_Grid", shards=2), J("TestC13_Grid", shards=2, env={"GODEBUG": "asynctimerchan=1"}), J("TestC13_Random", checks=30, shards=8, par=40), J("TestC13_Random", checks=250, shards=16, env={"GODEBUG": "asynctimerchan=1"}, par=40), J("TestC13_CloseDuringSlowList", checks=15, shards=4, par=32), J("TestC13_CloseDuringSlowList", checks=15, shards=2, env={"GODEBUG": "asynctimerchan=1"}, par=32), J("TestC13_RunsOrStops", checks=60, shards=4, par=32), J("TestC13_LongPeriods", checks=12, shards=4, par=32)],
+        thorough=[J("TestC13_Grid", shards=2, count=5), J("TestC13_Grid", shards=2, count=5, env={"GODEBUG": "asynctimerchan=1"}), J("TestC13_Random", checks=600, shards=16, par=40, timeout=2400), J("TestC13_Random", checks=1500, shards=24, env={"GODEBUG": "asynctimerchan=1"}, par=40, timeout=2400), J("TestC13_CloseDuringSlowList", checks=300, shards=8, par=32), J("TestC13_CloseDuringSlowList", checks=300, shards=8, env={"GODEBUG": "asynctimerchan=1"}, par=32), J("TestC13_RunsOrStops", checks=1500, shards=8, par=32), J("TestC13_LongPeriods", checks=150, shards=8, par=32)],
     ),
     "C04": dict(
         level="fault_enumeration",
@@ -149,19 +149,19 @@ PROPS = {
         level="exploration",
         rule="rapid state machine: trees of plain Subscribe/Clone up to depth 3 over a real controller; the stream (up to several hundred create/update/delete events over 6 keys) is published in bursts with at most EventBufsiz/4 events in flight between double-marker barriers; subscribers attach at generated moments, consumers read with generated per-event delays, the logger perturbs the schedule, GOMAXPROCS varies per shard. Oracle: each leaf's log is exactly a suffix ref[i:] of the published sequence with i <= the number of events published when its Subscribe/Clone returned; after each received event the leaf's Cache().Get never returns an older version. Non-trivial = >= 3 leaves at >= 2 depths, >= 1 subscriber attached after events were published, >= 50 events; distinct = hash of the history.",
         assumptions=["cases in which the harness itself overran a buffer are discarded and counted (none expected by construction)", "interleavings are perturbed, not enumerated"],
-        quick=[J("TestC05_FanOut", checks=50, shards=16, steps=50, procs=[1, 2, 4, 8, 16])],
-        thorough=[J("TestC05_FanOut", checks=1500, shards=32, steps=60, procs=[1, 2, 4, 8, 16], timeout=2400)],
+        quick=[J("TestC05_FanOut", checks=50, shards=16, steps=50, procs=[1, 2, 4, 8, 16]), J("TestC05_RelistDiffOrder", checks=150, shards=6, procs=[2, 4, 1, 16, 2, 8])],
+        thorough=[J("TestC05_FanOut", checks=1500, shards=32, steps=60, procs=[1, 2, 4, 8, 16], timeout=2400), J("TestC05_RelistDiffOrder", checks=6000, shards=16, procs=[1, 2, 4, 8, 16], timeout=2400)],
     ),
     "C08": dict(
         level="exploration",
         rule="bounded-exhaustive: all 46656 orders of length 6 over {parent becomes ready, Refilter(equal), Refilter(new), parent event, parent cache change, subscribe} x 12 variants (immediate/deferred x subscription/clone x node depth 1..3), the first list gated so that 'parent becomes ready' is a step; after every step Ready() of every node must be closed iff the readiness model says so, no event may precede Ready, the listing taken at the instant Ready is observed must equal the filtered parent content, caches/mirrors must match the reference (quick: every 40th order); plus rapid orders fired back-to-back under schedule perturbation incl. failing first lists (nothing ever ready, everything done). Non-trivial = the order has a Refilter before and after parent readiness, or a parent event/change after parent readiness (random: or a failing first list); distinct = (variant, order).",
         assumptions=["'Ready() not closed' is asserted at arbitrary instants (safe: it can only flip one way); 'Ready() closed' is awaited with a wedge bound"],
-        quick=[J("TestC08_Enum", shards=8, env={"VERIF_ENUM_STRIDE": "40"}), J("TestC08_Racy", checks=700, shards=4, procs=[2, 4, 8, 16]), J("TestC08_BlankListVersion", checks=150, shards=2, procs=[2, 8])],
-        thorough=[J("TestC08_Enum", shards=16, timeout=2400), J("TestC08_Racy", checks=15000, shards=8, procs=[1, 2, 4, 16], timeout=1800), J("TestC08_BlankListVersion", checks=4000, shards=4, procs=[1, 2, 4, 16], timeout=1800)],
+        quick=[J("TestC08_Enum", shards=8, env={"VERIF_ENUM_STRIDE": "40"}), J("TestC08_Racy", checks=700, shards=4, procs=[2, 4, 8, 16]), J("TestC08_BlankListVersion", checks=150, shards=2, procs=[2, 8]), J("TestC06_FilterSubscriptionModel", checks=400, shards=2, procs=[2, 8], env={"VERIF_FSMODEL_PROP": "C08"})],
+        thorough=[J("TestC08_Enum", shards=16, timeout=2400), J("TestC08_Racy", checks=15000, shards=8, procs=[1, 2, 4, 16], timeout=1800), J("TestC08_BlankListVersion", checks=4000, shards=4, procs=[1, 2, 4, 16], timeout=1800), J("TestC06_FilterSubscriptionModel", checks=15000, shards=4, procs=[1, 2, 4, 16], env={"VERIF_FSMODEL_PROP": "C08"}, timeout=2400)],
     ),
     "C07": dict(
         level="exploration",
-        rule="bounded-exhaustive: all 256 parent contents over 4 keys x {absent, x=1, x=2, unlabeled} x all 512 ordered triples (f1,f2,f3) of an 8-filter family, run as chains f1->f2->f3->f1 of Refilter calls on a real filtered subscription between double-marker barriers, each Refilter checked for the exact multiset of Create/Delete events, identity of retained objects, empty delta for equal filters, and restoration of the view under f1; the same over all ordered pairs of a 15-member composite family (duplicated / permuted / replaced children, empty composites, double negation); plus rapid chains (family filters and generated structurally-nearby filters) on larger universes, deferred and immediate nodes and nodes below a filtered clone with parent traffic in between. Non-trivial = some Refilter of the triple both removes and adds an object, or is to an equal filter with a non-empty cache; distinct = (content, f1, f2, f3) / hash of history.",
+        rule="bounded-exhaustive: all 256 parent contents over 4 keys x {absent, x=1, x=2, unlabeled} x all 512 ordered triples (f1,f2,f3) of an 8-filter family, run as chains f1->f2->f3->f1 of Refilter calls on a real filtered subscription between double-marker barriers, each Refilter checked for the exact multiset of Create/Delete events, identity of retained objects, empty delta for equal filters, and restoration of the view under f1; the same over all ordered pairs of a 19-member composite family (duplicated / permuted / replaced children, empty composites, double negation); plus rapid chains (family filters and generated structurally-nearby filters) on larger universes, deferred and immediate nodes and nodes below a filtered clone with parent traffic in between. Non-trivial = some Refilter of the triple both removes and adds an object, or is to an equal filter with a non-empty cache; distinct = (content, f1, f2, f3) / hash of history.",
         assumptions=["events are collected between two double-marker barriers; no parent event is in flight during a checked Refilter (the property's premise)"],
         quick=[J("TestC07_Enum", shards=16), J("TestC07_EnumComposite", shards=8), J("TestC07_Random", checks=600, shards=2)],
         thorough=[J("TestC07_Enum", shards=16), J("TestC07_EnumComposite", shards=16), J("TestC07_Random", checks=15000, shards=8, timeout=1800)],
